@@ -595,6 +595,16 @@ func (c *handlerCtx) bindReply(header Header) interface{} {
 	// unlock: handleReply
 	c.callCmd.mu.Lock()
 	verifGate("bindreply.afterLock", c.sess)
+	select {
+	case <-c.callCmd.doneChan:
+		// the call is already complete (a reply was handled, or it failed): a second
+		// reply must not complete it again
+		c.callCmd.mu.Unlock()
+		c.callCmd = nil
+		Warnf("ignore the reply of a completed call: %v", c.input)
+		return nil
+	default:
+	}
 	c.input.SetServiceMethod(c.callCmd.output.ServiceMethod())
 	c.swap = c.callCmd.swap
 	c.callCmd.inputBodyCodec = c.GetBodyCodec()
